@@ -124,11 +124,11 @@ def expand (es : List Entry) : Option (List Val) :=
   | some s => if s.pend.isNone then some s.out else none
   | none => none
 
-/-- position by position; a list may stop early when only jumps (defaults) are left out -/
+/-- position by position; a list may stop early when only jumps (defaults) are left out, but never be longer -/
 def matchesAll : List Val → List (Option Rat) → Bool
   | [], ys => ys.all (·.isNone)
   | v :: vs, y :: ys => v.matches y && matchesAll vs ys
-  | vs, [] => vs.all (· == Val.jump)
+  | _ :: _, [] => false  -- more entries written than there are values (even jumps): the list is too long
 
 end MontePyVerif.Spec.Shortcut
 
